@@ -21,7 +21,7 @@ AllQuirks == {
 }
 
 \* repaired by "fix:" commits in /repo (see /verif/known_findings.json, section fixed)
-FixedQuirks == {"zeroBeforeEmbedGuard", "emptyMsgNotAlloc"}
+FixedQuirks == {"zeroBeforeEmbedGuard", "emptyMsgNotAlloc", "makeBeforeNullGuard", "embedNeverReset"}
 
 \* what the current tree does
 Quirks == AllQuirks \ FixedQuirks
